@@ -190,17 +190,19 @@ func (f *FileState) place(d *simos.Disk, path string) []simos.Fault {
 	default:
 		d.WriteRaw(path, f.bytes(), 0o644)
 	}
-	op := "open-r"
+	// faults on reading are tied to the open they follow (per_open): "the reads of the k-th opening fail", however many
+	// read calls the loader needs per file
+	op, perOpen := "open-r", false
 	if f.OnRead {
-		op = "read"
+		op, perOpen = "read", true
 	}
 	switch f.Fault {
 	case "always":
-		return []simos.Fault{{Kind: simos.Transient, At: -1, Op: op, Path: path, Count: 1 << 30, Errno: f.Errno}}
+		return []simos.Fault{{Kind: simos.Transient, At: -1, Op: op, Path: path, Count: 1 << 30, Errno: f.Errno, PerOpen: perOpen}}
 	case "transient":
-		return []simos.Fault{{Kind: simos.Transient, At: -1, Op: op, Path: path, Count: f.N, Errno: f.Errno}}
+		return []simos.Fault{{Kind: simos.Transient, At: -1, Op: op, Path: path, Count: f.N, Errno: f.Errno, PerOpen: perOpen}}
 	case "failat":
-		return []simos.Fault{{Kind: simos.Fail, At: -1, Op: op, Path: path, Nth: f.N, Errno: f.Errno}}
+		return []simos.Fault{{Kind: simos.Fail, At: -1, Op: op, Path: path, Nth: f.N, Errno: f.Errno, PerOpen: perOpen}}
 	}
 	return nil
 }
